@@ -216,6 +216,8 @@ func runC23z(c *Ctx) {
 		}
 		var leaves []FlowPoint
 		phiLeaves(r.Results[2], r, &leaves, map[*ssa.Phi]bool{})
+		// (an error handed up by a private helper is that helper's: a failed Glob wrapped in globMatches)
+		leaves = ThroughHelpers(leaves, eg.Pkg)
 		for _, lf := range leaves {
 			if IsNilConst(Strip(lf.Val)) {
 				continue
@@ -307,6 +309,59 @@ func runC28z(c *Ctx) {
 		c.Holds(key, rd.Pos(), "reads with ReadString/ReadBytes (unbounded lines)")
 	default:
 		c.Undecided(key, rd.Pos(), "the way ReadMountProfile splits its input into lines was not recognised")
+	}
+	// the desired side (the rule behind finding F19)
+	c.Rule("C28-R6", "G", "neededChanges leaves a desired entry out of the mount plan only when the current profile holds an identical entry that is reused (a kept rootfs or synthetic entry at the same place does not stand for it)", 1)
+	var desiredSl ssa.Value
+	fEntries := P.Field("osutil.MountProfile.Entries")
+	for _, b := range fn.Blocks {
+		for _, in := range b.Instrs {
+			if cp, ok := isBuiltinCall(in, "copy"); ok && VFieldOf(fEntries, VParam(fn, 1))(cp.Call.Args[1]) {
+				desiredSl = Strip(cp.Call.Args[0])
+			}
+		}
+	}
+	isIDMap := func(v ssa.Value) bool {
+		mt, ok := v.Type().Underlying().(*types.Map)
+		if !ok {
+			return false
+		}
+		nt, ok := mt.Key().(*types.Named)
+		if !ok || nt.Obj().Name() != "mountEntryId" {
+			return false
+		}
+		bt, ok := mt.Elem().Underlying().(*types.Basic)
+		return ok && bt.Kind() == types.Bool
+	}
+	var filters []ssa.Value
+	if desiredSl != nil {
+		for _, b := range fn.Blocks {
+			for _, in := range b.Instrs {
+				lk, ok := in.(*ssa.Lookup)
+				if !ok || !isIDMap(lk.X) {
+					continue
+				}
+				if rl := LoopContaining(fn, lk); rl != nil && rl.Coll != nil && Strip(rl.Coll) == desiredSl {
+					filters = append(filters, Strip(lk.X))
+				}
+			}
+		}
+	}
+	if len(filters) == 0 {
+		c.Undecided("cmd/snap-update-ns.neededChanges#desired-left-out-only-if-identical", fn.Pos(), "the test that leaves already mounted desired entries out of the plan was not found")
+	}
+	m := 0
+	for _, fm := range filters {
+		for _, b := range fn.Blocks {
+			for _, in := range b.Instrs {
+				mu, ok := in.(*ssa.MapUpdate)
+				if !ok || Strip(mu.Map) != fm {
+					continue
+				}
+				m++
+				c.Guarded(fmt.Sprintf("cmd/snap-update-ns.neededChanges#desired-left-out-only-if-identical#%d", m), fn, in, []Clause{{equal}}, &GOpt{NoVacuity: true})
+			}
+		}
 	}
 }
 
